@@ -113,8 +113,21 @@ func faulty(name string, f afero.File, err error) (afero.File, error) {
 	case strings.HasPrefix(name, "/failread/"):
 		n, _ := strconv.Atoi(strings.SplitN(strings.TrimPrefix(name, "/failread/"), "/", 2)[0])
 		return &failReadFile{File: f, left: n}, nil
+	case strings.HasPrefix(name, "/failclose/"):
+		return &failCloseFile{File: f}, nil
 	}
 	return f, nil
+}
+
+// ErrInjectedClose: a file under /failclose/ reads fine; closing it reports an error (a network
+// filesystem that finds out late).
+var ErrInjectedClose = errors.New("injected fault: close failed")
+
+type failCloseFile struct{ afero.File }
+
+func (f *failCloseFile) Close() error {
+	_ = f.File.Close()
+	return ErrInjectedClose
 }
 
 var (
